@@ -1,10 +1,21 @@
 """C08 configuration for bin/check."""
 
 CFG = {
-        "tier_a": [],
-        "model_targets": ["Snap/PushPop.vo"],
+        "tier_a": ["SnapFacts.push_body", "SnapFacts.pop_carry", "SnapFacts.egraph_fields", "SnapFacts.bridge_fields",
+                   "SnapFacts.database_fields", "SnapFacts.tableinfo_clone", "SnapFacts.counters_clone"],
+        "model_targets": ["Snap/PushPop.vo", "Snap/Fields.vo"],
         "proof_targets": ["Props/C08.vo"],
         "harness": [{"bin": "h_snap", "prefix": "cases_snap", "timeout": 3000}],
+        "tier_a_note": "gen/SnapFacts.v (translator/src/x_snap.rs) regenerates: the statement list of EGraph::push, the "
+                       "carry-over (mem::swap) list of EGraph::pop with its `*self = *e; Ok(())` / `None => Err(Error::Pop)` "
+                       "frame, the field lists (name, type text, syntactic handle class) and Clone origin of egglog::EGraph, "
+                       "egglog_bridge::EGraph, core_relations::Database, the per-field initialisers of `impl Clone for "
+                       "TableInfo` + deep_clone_map body, and the fresh-cell shape of `impl Clone for Counters`. Pinned by "
+                       "c08_pop_is_regenerated, c08_push_is_regenerated, c08_carveouts_are, c08_fields_classified, "
+                       "c08_shared_mutable_recorded, c08_tableinfo_clone_is (reviewed tables: coq/Snap/Fields.v). "
+                       "NOT regenerated: Clone of the nested types below these structs (Parser, TypeInfo, RuleInfo, "
+                       "ContainerValues, BaseValues, SortedWritesTable, DisplacedTable ...): reviewed by hand, link-only. "
+                       "coq/Snap/Backend.v (store with index cells, clone non-interference) is PARKED, not in _CoqProject.",
         "trusted": [
             "coq/Snap/PushPop.v is a hand-written (Tier B) model of src/lib.rs push/pop (697-721), `Clone for EGraph` "
             "(derive, 285-311), egglog-bridge ActionRegistry / add_table (45-102, 583-651), TableAction::is_live "
